@@ -6,18 +6,19 @@ package main
 //
 //	stage_funcs            names of the stage functions of plugin.go (methods `pre*`/`post*` of
 //	                       pluginSingleContainer / PluginContainer); set
-//	stage_loops            for each of them the shape of its loop:
-//	                       (function, asserted interface, invoked method, iteration, verdict test, stop, tail, recover)
-//	                         iteration  `range $.plugins` (forward range over the receiver's list, index unused) or `?…`
-//	                         test       `!v.OK()` | `v != nil` | `?…`      how the verdict of one plugin is tested
-//	                         stop       `return v` | `return` | `exit` | `none` | `?…`   what a non-OK verdict does
-//	                         tail       `return nil` | `end` | `?…`        how the function ends after the loop
-//	                         recover    `recover` | `none`                  deferred recover() present
-//	stages_<root>          the flow (see flow.go) of each watched function restricted to the kinds
-//	                       stage, setcont, flag, return and the calls writeReply, write, ReadMessage, handleFunc,
-//	                       unknownHandleFunc, bind*, handle*, done, sess.Close
+//	stage_loop_paths       for each of them the control-flow paths of the function (paths.go, stage-function mode:
+//	                       the loop run for zero or one plugin): `range:<list>`, `assert:<interface>` (outcome ok / fail =
+//	                       the plugin implements it or not; detail `rangeval` = asserted on the loop variable),
+//	                       `invoke:<method>` (outcome = the plugin's verdict), `loop:next` / `loop:break`, `return`
+//	                       (detail: the operand; `<Method>()` = the verdict itself), `exit` (Fatalf)
+//	stage_recover          (function, `recover` | `none`): a deferred recover() is installed
+//	spaths_<root>          the control-flow PATHS (see paths.go) of each watched function projected on the kinds
+//	                       stage, setcont, flag, return, goto, exit, loop:back and the calls writeReply, write, ReadMessage,
+//	                       handleFunc, unknownHandleFunc, bind*, handle*, done, sess.Close; with `spaths_<root>_missing`
+//	                       (what could not be placed in THAT root: a consumer depends only on the roots it reads)
+//	spaths_handlerCtx_handleCall_recover   the paths of handleCall's deferred recover() literal with a panic pending
 //	stage_unwatched_sites  (function, stage) of every stage call in the root package that no watched
-//	                       flow reaches (directly or through an inlined helper); set
+//	                       root reaches (directly or through an inlined helper); set
 //
 // Watched roots: session.AsyncCall, Push, startReadAndHandle; handlerCtx.binding, bindCall, bindPush, bindReply,
 // handleCall, handlePush, handleReply; peer.ServeConn, the accept literal of peer.serveListener, peer.Dial
@@ -25,7 +26,6 @@ package main
 
 import (
 	"go/ast"
-	"go/token"
 	"sort"
 	"strings"
 )
@@ -33,7 +33,7 @@ import (
 func init() {
 	register(Group{
 		Name: "Stages",
-		Doc:  "Ordered plugin stage calls of every function that runs message or connection hooks (container class, how the verdict is used, enclosing conditions), the loop shape of every stage function of plugin.go, and the position of handleCall's reply-written flag. Consumed by Teleport.Props.C09 (C09_callsite_order, C09_stage_loops, C09_veto_sites) and Teleport.Props.C03 (C03_writed_before_postwrite).",
+		Doc:  "PATH-SENSITIVE: the control-flow paths of every function that runs message or connection hooks, each path the ordered stage calls (container class, verdict as decided on that path) with the handler / write / flag events between them; the paths of every stage function of plugin.go; the paths of handleCall's deferred recover. Per-root `_missing` lists. Consumed by Teleport.Props.C09 (C09_callsite_order, C09_stage_loops, C09_veto_sites) and Teleport.Props.C03 (C03_writed_before_postwrite).",
 		Gen:  genStages,
 	})
 }
@@ -52,12 +52,14 @@ var stagesCalls = map[string]bool{
 	"call:handleReply": true, "call:done": true, "call:sess.Close": true,
 }
 
-func stagesKeep(e flEv) bool {
-	switch flKind(e) {
-	case "stage", "setcont", "flag", "return":
+func stagesKeepPath(kind, name string) bool {
+	switch kind {
+	case "stage", "setcont", "flag", "return", "goto", "exit":
 		return true
+	case "loop":
+		return name == "back"
 	}
-	return stagesCalls[e.Key]
+	return stagesCalls[kind+":"+name]
 }
 
 func genStages(r *Repo, l *Lean) {
@@ -79,7 +81,7 @@ func genStages(r *Repo, l *Lean) {
 	} else {
 		l.StrSet("stage_funcs", "names of the stage functions of plugin.go", fns)
 	}
-	var loops [][]string
+	var loopRows, recRows []string
 	for _, n := range fns {
 		decls := x.byName[n]
 		var fd *ast.FuncDecl
@@ -91,28 +93,64 @@ func genStages(r *Repo, l *Lean) {
 			}
 		}
 		if cnt != 1 {
-			loops = append(loops, []string{n, "?declared " + stItoa(cnt) + " times", "", "", "", "", "", ""})
+			loopRows = append(loopRows, "("+leanStr(n)+", [[(\"?\", \"declared "+stItoa(cnt)+" times\", \"\", \"\")]])")
 			continue
 		}
-		loops = append(loops, stageLoopShape(fd))
+		paths, missing := x.pathsOfRoot(flRoot{Name: n, fd: fd, body: fd.Body}, nil, true)
+		paths = pProject(paths, func(kind, _ string) bool {
+			switch kind {
+			case "range", "assert", "invoke", "loop", "return", "exit", "goto":
+				return true
+			}
+			return false
+		})
+		if len(missing) > 0 {
+			paths = append(paths, pPath{{"?", strings.Join(missing, "; "), "", ""}})
+		}
+		loopRows = append(loopRows, "("+leanStr(n)+", "+strings.ReplaceAll(pPathsLean(paths), "\n  ", "\n    ")+")")
+		rec := "none"
+		for _, st := range fd.Body.List {
+			if d, ok := st.(*ast.DeferStmt); ok {
+				has := false
+				ast.Inspect(d, func(m ast.Node) bool {
+					if c, ok := m.(*ast.CallExpr); ok && flCalleeName(c) == "recover" {
+						has = true
+					}
+					return true
+				})
+				if has {
+					rec = "recover"
+				} else {
+					rec = "?defer without recover"
+				}
+			}
+		}
+		recRows = append(recRows, "("+leanStr(n)+", "+leanStr(rec)+")")
 	}
-	l.add("stage_loops", "(function, asserted interface, invoked method, iteration, verdict test, stop, tail, recover) of every stage function; sorted by function",
-		"List (String × String × String × String × String × String × String × String)", flSortedRows(loops))
+	l.add("stage_loop_paths", "(function, paths) of every stage function: the paths through the function with the loop run for zero or one plugin — `range:<list>`, `assert:<interface>` (outcome: does the plugin implement it), `invoke:<method>` (outcome: its verdict), `loop:next` / `loop:break`, `return` (detail: what is returned; `<Method>()` = the verdict); sorted by function",
+		"List (String × "+pPathsType+")", "[\n  "+strings.Join(loopRows, ",\n  ")+"]")
+	l.add("stage_recover", "(function, `recover` | `none`) : does the stage function install a deferred recover(); sorted by function",
+		"List (String × String)", "[\n  "+strings.Join(recRows, ",\n  ")+"]")
 
-	// ---- flows
+	// ---- paths (see paths.go): per root, projected on the vocabulary of this group
+	consts := transStatusConstsQuiet(p)
 	for _, root := range x.standardRoots() {
 		if !stagesRoots[root.Name] {
 			continue
 		}
-		name := "stages_" + flLeanName(root.Name)
+		name := "spaths_" + flLeanName(root.Name)
 		if root.why != "" {
-			l.Missing(name, root.why)
+			l.missingPaths(name, root.why)
 			continue
 		}
-		evs := flFilter(x.walkRoot(root, false), stagesKeep)
-		l.missing = append(l.missing, flUnplaced(name, evs)...)
-		l.add(name, "flow of "+root.Name+" (kind, name, detail, use class, enclosing conditions); ordered as in the source",
-			flEvType, flFlowLean(evs))
+		paths, missing := x.pathsOfRoot(root, consts, false)
+		l.addPaths(name, "paths of "+root.Name+" over stage / setcont / flag / return events and the calls writeReply, write, ReadMessage, handleFunc, unknownHandleFunc, bind*, handle*, done, sess.Close",
+			pProject(paths, stagesKeepPath), missing)
+		if root.Name == "handlerCtx.handleCall" {
+			rp, rm := x.recoverPathsOfRoot(root, consts)
+			l.addPaths(name+"_recover", "paths of the deferred recover() literal(s) of "+root.Name+" when a panic is being recovered (nothing known about the locals: `flag:is` = the test of the reply-written flag)",
+				pProject(rp, stagesKeepPath), rm)
+		}
 	}
 
 	// ---- stage calls that no watched flow reaches
@@ -149,182 +187,4 @@ func stItoa(n int) string {
 		n /= 10
 	}
 	return s
-}
-
-// stageLoopShape recognises
-//
-//	[var v T] [defer func(){ if p := recover(); p != nil {...} }()]
-//	for _, pl := range <recv>.plugins {
-//	    if a, ok := pl.(Iface); ok {
-//	        [...]
-//	        if v = a.Method(args); !v.OK() | v != nil { [log]; return [v] | Fatalf }
-//	    }
-//	}
-//	[return nil]
-//
-// and reports every deviation as `?…` in the field it concerns.
-func stageLoopShape(fd *ast.FuncDecl) []string {
-	name := fd.Name.Name
-	row := []string{name, "?", "?", "?", "?", "?", "?", "none"}
-	rv := recvVarName(fd)
-	var loop *ast.RangeStmt
-	nLoops := 0
-	tail := "end"
-	for i, s := range fd.Body.List {
-		switch v := s.(type) {
-		case *ast.DeclStmt:
-		case *ast.DeferStmt:
-			hasRecover := false
-			ast.Inspect(v, func(n ast.Node) bool {
-				if c, ok := n.(*ast.CallExpr); ok && flCalleeName(c) == "recover" {
-					hasRecover = true
-				}
-				return true
-			})
-			if hasRecover {
-				row[7] = "recover"
-			} else {
-				row[7] = "?defer without recover"
-			}
-		case *ast.RangeStmt:
-			loop = v
-			nLoops++
-		case *ast.ReturnStmt:
-			if i != len(fd.Body.List)-1 {
-				tail = "?return before the end"
-			} else if len(v.Results) == 0 {
-				tail = "end"
-			} else if len(v.Results) == 1 && flRaw(v.Results[0]) == "nil" {
-				tail = "return nil"
-			} else {
-				tail = "?return " + flRaw(v.Results[0])
-			}
-		default:
-			tail = "?statement outside the loop"
-		}
-	}
-	row[6] = tail
-	if nLoops != 1 {
-		row[3] = "?" + stItoa(nLoops) + " range loops"
-		return row
-	}
-	// iteration
-	keyOK := loop.Key == nil
-	if id, ok := loop.Key.(*ast.Ident); ok && id.Name == "_" {
-		keyOK = true
-	}
-	val, _ := loop.Value.(*ast.Ident)
-	if keyOK && val != nil && rv != "" && flRaw(loop.X) == rv+".plugins" {
-		row[3] = "range $.plugins"
-	} else {
-		row[3] = "?range " + flRaw(loop.X)
-		return row
-	}
-	// body: one type-assertion if
-	if len(loop.Body.List) != 1 {
-		row[1] = "?loop body has " + stItoa(len(loop.Body.List)) + " statements"
-		return row
-	}
-	outer, ok := loop.Body.List[0].(*ast.IfStmt)
-	if !ok || outer.Else != nil {
-		row[1] = "?loop body is not a single if"
-		return row
-	}
-	as, ok := outer.Init.(*ast.AssignStmt)
-	if !ok || len(as.Lhs) != 2 || len(as.Rhs) != 1 {
-		row[1] = "?no type assertion"
-		return row
-	}
-	ta, ok := as.Rhs[0].(*ast.TypeAssertExpr)
-	okVar, _ := as.Lhs[1].(*ast.Ident)
-	asserted, _ := as.Lhs[0].(*ast.Ident)
-	if !ok || okVar == nil || asserted == nil || flRaw(ta.X) != val.Name || flRaw(outer.Cond) != okVar.Name {
-		row[1] = "?type assertion of another shape"
-		return row
-	}
-	row[1] = flBaseType(ta.Type)
-	// inside: exactly one verdict if; other statements must be plain assignments / calls without control flow
-	var verdict *ast.IfStmt
-	for _, s := range outer.Body.List {
-		switch v := s.(type) {
-		case *ast.IfStmt:
-			if verdict != nil {
-				row[2] = "?more than one if in the assertion body"
-				return row
-			}
-			verdict = v
-		case *ast.AssignStmt, *ast.ExprStmt:
-		default:
-			row[2] = "?control flow in the assertion body"
-			return row
-		}
-	}
-	if verdict == nil || verdict.Else != nil {
-		row[2] = "?no verdict test"
-		return row
-	}
-	vas, ok := verdict.Init.(*ast.AssignStmt)
-	if !ok || len(vas.Lhs) != 1 || len(vas.Rhs) != 1 {
-		row[2] = "?verdict not assigned in the if"
-		return row
-	}
-	call, ok := vas.Rhs[0].(*ast.CallExpr)
-	vname := flRaw(vas.Lhs[0])
-	if !ok {
-		row[2] = "?verdict is not a call"
-		return row
-	}
-	sel, ok := call.Fun.(*ast.SelectorExpr)
-	if !ok || flRaw(sel.X) != asserted.Name {
-		row[2] = "?verdict call not on the asserted plugin"
-		return row
-	}
-	row[2] = sel.Sel.Name
-	subj := func(e ast.Expr) bool {
-		switch e.(type) {
-		case *ast.Ident, *ast.SelectorExpr:
-			return flRaw(e) == vname
-		}
-		return false
-	}
-	if flPolarity(verdict.Cond, subj) != "fail" {
-		row[4] = "?" + flRaw(verdict.Cond)
-		return row
-	}
-	if _, isBin := flUnparen(verdict.Cond).(*ast.BinaryExpr); isBin {
-		row[4] = "v != nil"
-	} else {
-		row[4] = "!v.OK()"
-	}
-	// stop: the failing branch must leave the function; no statement of it may be control flow other than the last
-	body := verdict.Body.List
-	stop := "none"
-	for i, s := range body {
-		switch v := s.(type) {
-		case *ast.ReturnStmt:
-			if i != len(body)-1 {
-				stop = "?return not last"
-			} else if len(v.Results) == 0 {
-				if stop != "exit" {
-					stop = "return"
-				}
-			} else if len(v.Results) == 1 && flRaw(v.Results[0]) == vname {
-				stop = "return v"
-			} else {
-				stop = "?return " + flRaw(v.Results[0])
-			}
-		case *ast.ExprStmt:
-			if c, ok := v.X.(*ast.CallExpr); ok && flCalleeName(c) == "Fatalf" {
-				stop = "exit"
-			}
-		case *ast.AssignStmt:
-		case *ast.BranchStmt:
-			stop = "?" + strings.ToLower(v.Tok.String())
-		default:
-			stop = "?control flow in the failing branch"
-		}
-	}
-	row[5] = stop
-	_ = token.NoPos
-	return row
 }
